@@ -32,7 +32,7 @@ Proof.
 Qed.
 
 Fixpoint logs2 (ag : list frame) : list (N * N) :=
-  match ag with [] => [] | FDiscLog d r :: t => (d, r) :: logs2 t | _ :: t => logs2 t end.
+  match ag with [] => [] | FDiscLog _ d r :: t => (d, r) :: logs2 t | _ :: t => logs2 t end.
 Lemma logs2_app a b : logs2 (a ++ b) = logs2 a ++ logs2 b.
 Proof. induction a as [|[]]; cbn [logs2 app]; auto. rewrite IHa. reflexivity. Qed.
 Lemma logs2_fop cb : logs2 (map FOp cb) = [].
@@ -47,12 +47,11 @@ Definition pdids (p : list (bool * N * list op)) : list N := map (fun e => snd (
 Lemma somes_reqs p :
   somes (map (fun e : bool * N * list op => (snd (fst e), Some (snd e))) p) = pdids p.
 Proof. induction p as [|[[? ?] ?]]; cbn; auto. cbn in IHp. rewrite IHp. reflexivity. Qed.
-Lemma logs2_frames run r :
-  logs2 (flat_map (fun e : N * option (list op) => match snd e with
-        | Some cb => FDiscLog (fst e) run :: map FOp cb | None => [] end) r)
+Lemma logs2_frames nulls run r :
+  logs2 (disc_frames nulls run r)
   = map (fun d => (d, run)) (somes r).
 Proof.
-  induction r as [|[d [cb|]] r IH]; cbn [flat_map snd fst somes map]; auto.
+  unfold disc_frames in *. induction r as [|[d [cb|]] r IH]; cbn [flat_map snd fst somes map]; auto.
   cbn [app logs2]. rewrite logs2_app, logs2_fop, IH. reflexivity.
 Qed.
 
@@ -239,7 +238,7 @@ Lemma step_E_live s f ag s' ag' :
   h_destroying s = false -> InvA s (f :: ag) -> EI s (f :: ag) -> step s f ag = (s', ag') -> EI s' ag'.
 Proof.
   intros Hnd HA HE H. pose proof HA as HA0. unfold InvA in HA. cbn [ndone] in HA.
-  destruct f as [[cb|full cb| | |r|]| | | |]; cbn [step do_op] in H; rewrite ?Hnd in H; cbn [negb andb] in H;
+  destruct f as [[cb|full nl cb| | |r|]| | | |]; cbn [step do_op] in H; rewrite ?Hnd in H; cbn [negb andb] in H;
     rewrite ?andb_true_r in H; unfold EI in HE; cbn [logs2] in HE.
   - destruct (s_max s <=? len (s_queue s)).
     + inversion H; subst. unfold EI. cbn. rewrite logs2_app, logs2_fop. exact HE.
@@ -274,7 +273,7 @@ Lemma step_E_dying s f ag s' ag' :
   EI s (f :: ag) -> step s f ag = (s', ag') -> EI s' ag'.
 Proof.
   intros Hd Hp Hdf HE H.
-  destruct f as [[cb|full cb| | |r|]| | | |]; cbn in Hdf; try contradiction; cbn [step do_op] in H;
+  destruct f as [[cb|full nl cb| | |r|]| | | |]; cbn in Hdf; try contradiction; cbn [step do_op] in H;
     rewrite ?Hd in H; cbn [negb andb] in H; rewrite ?andb_false_r in H; unfold EI in HE; cbn [logs2] in HE.
   - destruct (s_max s <=? len (s_queue s)).
     + inversion H; subst. unfold EI. cbn. rewrite logs2_app, logs2_fop. exact HE.
